@@ -50,6 +50,9 @@ def classify_compile_errors(c, errs):
         if zs and any((f"`{z}`" in e) and ("field_sets" in e or "FieldSetValue" in e) for z in zs):
             classes.add("F20-zero-size-register-has-no-field-set")
             continue
+        if "literal out of range for `i" in e and oracles.signed_enum_discriminant_overflow(adef):
+            classes.add("F23-enum-on-int-field-with-number-above-the-signed-maximum")
+            continue
         if "cannot apply unary operator `-`" in e or ("E0600" in e):
             classes.add("F15-negative-literal-in-unsigned-internal-type")
             continue
@@ -132,6 +135,20 @@ def correspond_c19(tier, impl_only=False):
         if not okc and not errors:
             res.harness_error = "cargo check failed without attributable errors: " + stderr[-800:]
             continue
+        # rustc stops after the phase in which it found errors: a module whose only defect shows in a later phase (type
+        # check after name resolution, deny-by-default lints such as an out-of-range literal after type check) is masked by
+        # the other modules of its batch. The modules without errors are checked again on their own until nothing new shows.
+        for _round in range(4):
+            clean = [(m, t) for m, t in mods if m not in errors]
+            if okc or not clean or len(clean) == len(mods):
+                break
+            mods = clean
+            probe.write_crate(d, mods, no_std=True)
+            okc, more, _, stderr = probe.cargo_check(d)
+            stats["batches"] += 1
+            if not more:
+                break
+            errors.update(more)
         for c, a in part:
             errs = errors.get("d%d" % c["id"], [])
             if not errs:
